@@ -200,7 +200,7 @@ func coveredAfter(fn *ssa.Function, b *ssa.BasicBlock, idx int, fs []flow.Fact, 
 			avoid[blk] = true
 		}
 	}
-	reached := flow.ReachedUnder(b, fs, avoid)
+	reached := flow.ReachedUnderPhis(b, fs, avoid)
 	var exits []*ssa.Return
 	if ret, ok := b.Instrs[len(b.Instrs)-1].(*ssa.Return); ok {
 		exits = append(exits, ret)
